@@ -311,7 +311,7 @@ def splittings(n, bounds, rnd, thorough):
         more = [c for k in range(2, n) for c in itertools.combinations(range(1, n), k)]
     else:
         pairs = list(itertools.combinations(near, 2))
-        more = pairs if len(pairs) <= (45 if thorough else 12) else rnd.sample(pairs, 45 if thorough else 12)
+        more = pairs if len(pairs) <= (30 if thorough else 12) else rnd.sample(pairs, 30 if thorough else 12)
         if thorough:
             tri = list(itertools.combinations(near, 3))
             more += tri if len(tri) <= 15 else rnd.sample(tri, 15)
@@ -1026,7 +1026,7 @@ def run(check):
     by_len = {}
     for q in seqs:
         by_len.setdefault(len(q), []).append(q)
-    quota = {1: 10 ** 9, 2: 10 ** 9, 3: 350, 4: 100} if thorough else {1: 10 ** 9, 2: 120, 3: 130}
+    quota = {1: 10 ** 9, 2: 10 ** 9, 3: 250, 4: 60} if thorough else {1: 10 ** 9, 2: 120, 3: 130}
     seqs = [q for n in sorted(by_len) for q in (by_len[n] if len(by_len[n]) <= quota.get(n, 0) else rnd.sample(by_len[n], quota.get(n, 0)))]
     lines, index = run_r(check, rnd, seqs, thorough)
     fails = judge(check, lines, "TraceH3_R")
